@@ -13,6 +13,19 @@ CLAIMED = {
    note="Lean kernel + propext/Quot.sound; model LlirModel/Enc.lean hand-written; LexSpec reconstructed and validated against the real "
         "lexer; strconv contracts assumed; Go harness + comparison script trusted.",
    technique="Lean 4 proof over a hand-written model + differential correspondence with the Go implementation", design="§4 C11"),
+ "C09": dict(
+   text="Lean proof, for every width other than i1, every integer and BOTH outcomes of the hex/decimal heuristic, that NewIntFromString(Ident(x)) = x; "
+        "every accepted spelling (signed decimal, u0x upper/lower, s0x two's complement = BitVec.toInt, true/false) denotes the correct value. i1 is "
+        "partial (x in {0,1}); the negation at i1 -1 is proved and recorded as a known finding. Model tied to the code by differential runs of Ident, "
+        "NewIntFromString and asm.ParseString, including the floating-point heuristic's decisions.",
+   note="Lean kernel + propext/Quot.sound/Classical.choice; model LlirModel/IntLit.lean, Digits.lean hand-written; math/big contracts assumed; harness trusted.",
+   technique="Lean 4 proof over a hand-written model + differential correspondence with the Go implementation", design="§4 C09"),
+ "C20": dict(
+   text="Lean proof that the model of natsort.Less is a strict total order on ALL byte strings (irreflexive, asymmetric, transitive, total) by refinement to a "
+        "lexicographic order on injective token keys, and that a list therefore has exactly one sorted permutation (order of the input and choice of sorting "
+        "routine are irrelevant). Tied to the code by differential runs of natsort.Less / natsort.Strings and order-law / numeric-reading oracles on the real function.",
+   note="Lean kernel + propext/Quot.sound/Classical.choice; model LlirModel/Natsort.lean hand-written (index pair abstracted to suffixes); sort.Sort assumed to return a sorted permutation.",
+   technique="Lean 4 proof over a hand-written model + differential correspondence with the Go implementation", design="§4 C20"),
 }
 
 def main():
